@@ -99,6 +99,8 @@ struct Args {
     file: Option<String>,
     only: Option<String>,
     terse: bool,
+    lite: bool,
+    side_evidence: Option<String>,
 }
 
 fn parse_args() -> Result<Args, String> {
@@ -119,6 +121,8 @@ fn parse_args() -> Result<Args, String> {
         file: None,
         only: None,
         terse: false,
+        lite: false,
+        side_evidence: None,
     };
     let mut i = 2;
     while i < argv.len() {
@@ -153,6 +157,11 @@ fn parse_args() -> Result<Args, String> {
                 i += 1;
             }
             "--terse" => a.terse = true,
+            "--lite" => a.lite = true,
+            "--side-evidence" => {
+                a.side_evidence = Some(need(i)?);
+                i += 1;
+            }
             s if !s.starts_with("--") && a.file.is_none() => a.file = Some(s.to_string()),
             s => return Err(format!("unknown argument {}", s)),
         }
@@ -175,7 +184,15 @@ struct Plan {
     swarm_runs: u64,
 }
 
-fn plan_for(tier: &str) -> Plan {
+fn plan_for(tier: &str, lite: bool) -> Plan {
+    if lite {
+        // reduced pass, run with the debug-assertions build
+        let mut ft = explore_f::FTier::quick();
+        ft.exhaustive_cap = if tier == "thorough" { 400 } else { 200 };
+        ft.ref_budget = 2_000;
+        ft.sample_k = 16;
+        return Plan { thorough: false, ftier: ft, maxlen: 4, ins_extras: 1, swarm_runs: if tier == "thorough" { 60_000 } else { 15_000 } };
+    }
     if tier == "thorough" {
         Plan { thorough: true, ftier: explore_f::FTier::thorough(), maxlen: 6, ins_extras: 3, swarm_runs: 400_000 }
     } else {
@@ -265,6 +282,7 @@ fn write_replay(dir: &str, a: &Args, fv: &FoundViolation, m: &minimise::Minimise
         ("violating_instance", J::U(m.violation.inst as u64)),
         ("seed", J::U(a.seed)),
         ("tier", J::S(a.tier.clone())),
+        ("found_with_build", J::s(if cfg!(debug_assertions) { "dbgassert" } else { "release" })),
         (
             "found_in",
             J::obj(vec![("mode", J::s(stats::mode_name(fv.id.0))), ("group", J::U(fv.id.1)), ("sub", J::U(fv.id.2))]),
@@ -279,7 +297,8 @@ fn write_replay(dir: &str, a: &Args, fv: &FoundViolation, m: &minimise::Minimise
         ("replay", J::s("ivpsim replay <this file>  (or: /verif/check --replay <this file>)")),
     ]);
     let name = format!(
-        "C06-{}-{}-{}-{}-{}.json",
+        "C06{}-{}-{}-{}-{}-{}.json",
+        if cfg!(debug_assertions) { "-dbgassert" } else { "" },
         a.seed,
         stats::mode_name(fv.id.0),
         fv.id.1,
@@ -358,10 +377,18 @@ fn cmd_replay(a: &Args) -> i32 {
 
 fn cmd_check(a: &Args) -> i32 {
     let t0 = std::time::Instant::now();
-    let plan = plan_for(&a.tier);
+    let plan = plan_for(&a.tier, a.lite);
+    let lite = a.lite;
     let seed = a.seed;
     let workers = a.workers.max(1);
-    println!("ivpsim check: property=C06 tier={} seed={} workers={}", a.tier, seed, workers);
+    println!(
+        "ivpsim check: property=C06 tier={} seed={} workers={} build={}{}",
+        a.tier,
+        seed,
+        workers,
+        if cfg!(debug_assertions) { "debug-assertions+overflow-checks" } else { "release" },
+        if lite { " (reduced pass)" } else { "" }
+    );
     let known = match load_known(&a.known) {
         Ok(k) => k,
         Err(e) => {
@@ -395,7 +422,7 @@ fn cmd_check(a: &Args) -> i32 {
 
     // 1. determinism of the simulator itself, on a fixed slice, at two worker counts
     let mut det = J::s("skipped");
-    if enabled("det") {
+    if enabled("det") && !lite {
         let (a1, d1) = determinism_slice(seed, 1.max(workers / 4));
         let (a2, d2) = determinism_slice(seed, workers);
         if d1 != d2 || a1 != a2 {
@@ -429,7 +456,7 @@ fn cmd_check(a: &Args) -> i32 {
         harness.extend(errs);
     }
     // 1b. builder half: the interacting setter pairs, deeper
-    if enabled("bsub") {
+    if enabled("bsub") && !lite {
         for (name, sub, depth) in explore_b::sub_alphabets(plan.thorough) {
             let units = explore_b::bsub_units(sub.len());
             let t = std::time::Instant::now();
@@ -474,6 +501,11 @@ fn cmd_check(a: &Args) -> i32 {
     if enabled("fgrid") {
         let mut groups = explore_f::groups(&plan.ftier);
         groups.extend(explore_b::bperm_f_groups());
+        if lite {
+            // every fifth group of the grid (the grid's axes have no period 5, so every solver,
+            // problem, parameter set, dimension mode and field still occurs)
+            groups = groups.into_iter().enumerate().filter(|(i, _)| i % 5 == 2).map(|(_, g)| g).collect();
+        }
         f_groups = groups.len() as u64;
         let t = std::time::Instant::now();
         let ft = plan.ftier;
@@ -583,7 +615,36 @@ fn cmd_check(a: &Args) -> i32 {
             swarm_runs: if enabled("swarm") { plan.swarm_runs } else { 0 },
             f_groups,
         };
-        let j = evidence::evidence_json(&total, &meta);
+        let mut j = evidence::evidence_json(&total, &meta);
+        if let Some(side) = &a.side_evidence {
+            // summary of the reduced pass made with the debug-assertions build just before
+            if let Ok(text) = std::fs::read_to_string(side) {
+                if let Ok(sj) = json::parse(&text) {
+                    if let (J::O(top), Some(cov)) = (&mut j, sj.get("coverage")) {
+                        for (k, v) in top.iter_mut() {
+                            if k == "coverage" {
+                                if let J::O(c) = v {
+                                    let pick = |name: &str| cov.get(name).cloned().unwrap_or(J::Null);
+                                    c.push((
+                                        "debug_assertions_pass".to_string(),
+                                        J::obj(vec![
+                                            ("build", J::s("profile dbgassert: release optimisation + debug-assertions + overflow-checks in every crate, /repo included")),
+                                            ("evaluations", pick("evaluations")),
+                                            ("simulated_runs", pick("simulated_runs")),
+                                            ("derivative_calls", pick("derivative_calls")),
+                                            ("faults", cov.get("faults").and_then(|f| f.get("derivative_errors_injected")).cloned().unwrap_or(J::Null)),
+                                            ("builder_chains", cov.get("builder_half").and_then(|f| f.get("chains_enumerated")).cloned().unwrap_or(J::Null)),
+                                            ("violations", sj.get("violations").cloned().unwrap_or(J::Null)),
+                                            ("wall_s", sj.get("wall_s").cloned().unwrap_or(J::Null)),
+                                        ]),
+                                    ));
+                                }
+                            }
+                        }
+                    }
+                }
+            }
+        }
         if let Some(dir) = std::path::Path::new(p).parent() {
             let _ = std::fs::create_dir_all(dir);
         }
@@ -617,9 +678,16 @@ fn cmd_check(a: &Args) -> i32 {
     0
 }
 
+static LAST_PANIC: Mutex<String> = Mutex::new(String::new());
+
 fn main() {
-    // panics are caught and judged by the simulator; keep stderr quiet
-    std::panic::set_hook(Box::new(|_| {}));
+    // panics inside simulated calls are caught and judged by the simulator; keep stderr quiet,
+    // but remember the last one so that a panic of the harness itself can be reported
+    std::panic::set_hook(Box::new(|info| {
+        if let Ok(mut g) = LAST_PANIC.lock() {
+            *g = info.to_string();
+        }
+    }));
     let a = match parse_args() {
         Ok(a) => a,
         Err(e) => {
@@ -627,12 +695,20 @@ fn main() {
             std::process::exit(2);
         }
     };
-    let code = match a.cmd.as_str() {
+    let code = std::panic::catch_unwind(std::panic::AssertUnwindSafe(|| match a.cmd.as_str() {
         "check" => cmd_check(&a),
         "replay" => cmd_replay(&a),
         "fingerprints" => cmd_fingerprints(&a),
         _ => {
             eprintln!("unknown command {}", a.cmd);
+            2
+        }
+    }));
+    let code = match code {
+        Ok(c) => c,
+        Err(_) => {
+            let msg = LAST_PANIC.lock().map(|g| g.clone()).unwrap_or_default();
+            eprintln!("HARNESS-ERROR: the simulator itself panicked: {}", msg);
             2
         }
     };
